@@ -102,8 +102,16 @@ func (s *Service) GetHandler(name string) Handler {
 }
 
 // Handle the reqeust and returns the response.
-func (s *Service) Handle(ctx context.Context, request []byte) ([]byte, error) {
-	response, err := s.ioManager.Handler().(NextIOHandler)(ctx, request)
+func (s *Service) Handle(ctx context.Context, request []byte) (response []byte, err error) {
+	func() {
+		// a panic while decoding the request or inside an IO plugin is an error of this call only
+		defer func() {
+			if p := recover(); p != nil {
+				response, err = nil, NewPanicError(p)
+			}
+		}()
+		response, err = s.ioManager.Handler().(NextIOHandler)(ctx, request)
+	}()
 	if len(response) == 0 {
 		serviceContext := GetServiceContext(ctx)
 		if err == nil {
